@@ -24,6 +24,7 @@ THEOREMS = [
     "BeyondVerif.C20.forest_build_succeeds",
     "BeyondVerif.C20.forest_routes_exact_bounded",
     "BeyondVerif.C20.forest_path_unique",
+    "BeyondVerif.C20.forest_tables_exact",
     "BeyondVerif.C20.forest_routingExact",
     "BeyondVerif.C20.new_registration_preserves",
     "BeyondVerif.Node.refreshRoutes_spec",
@@ -32,7 +33,7 @@ THEOREMS = [
 LEVEL_TEXT = ("Lean theorems over the routing model: for every insertion history (any graph, order, orientation) each returned path is a chain of "
               "inserted links from source to goal (path_valid_chain); for EVERY forest history of any size (each link joins two components; any order, "
               "either orientation) the incremental tables route every connected pair along the unique simple chain of inserted links and report Unknown "
-              "for every unconnected pair, fuel >= number of nodes always suffices (forest_routes_exact, forest_routes_exact_bounded, forest_path_unique, "
+              "for every unconnected pair, fuel >= number of nodes always suffices (forest_routes_exact, forest_routes_exact_bounded, forest_path_unique, forest_tables_exact, "
               "forest_routingExact, by induction over histories with a traversal invariant for _update); linking a fresh leaf changes no existing route "
               "(new_registration_preserves); the three built-in graphs, regenerated from the source in execution order each run, and all forest "
               "histories on <=4 nodes are additionally checked by (kernel) decide. Exact differential correspondence of the model with the real Node "
